@@ -46,6 +46,11 @@ type ClientConn struct {
 	mu      sync.Mutex
 	replyCh map[uint32]chan message.Request
 
+	// sendMu orders every outgoing message against the Disconnect: once Disconnect has been
+	// written nothing else (keepalive excepted) is written to the transport.
+	sendMu       sync.RWMutex
+	disconnected bool
+
 	logger log.Logger
 
 	protocolVersion string
@@ -383,7 +388,20 @@ func (c *ClientConn) Close() error {
 
 // SendDisconnectは、Disconnectメッセージを送信します。
 func (c *ClientConn) SendDisconnect(ctx context.Context, msg *message.Disconnect) error {
+	c.sendMu.Lock()
+	defer c.sendMu.Unlock()
+	c.disconnected = true
 	return c.transport.Write(msg)
+}
+
+// writeUnlessDisconnected writes a message to tr unless Disconnect has already been sent.
+func (c *ClientConn) writeUnlessDisconnected(tr EncodingTransport, msg message.Message) error {
+	c.sendMu.RLock()
+	defer c.sendMu.RUnlock()
+	if c.disconnected {
+		return errors.ErrConnectionClosed
+	}
+	return tr.Write(msg)
 }
 
 // SendUpstreamMetadataは、UpstreamMetadataを送信します。
@@ -490,8 +508,7 @@ func (c *ClientConn) SendUpstreamChunk(ctx context.Context, req *message.Upstrea
 	if !ok {
 		return errors.New("stream not exist")
 	}
-	err := tr.Write(req)
-	return err
+	return c.writeUnlessDisconnected(tr, req)
 }
 
 // SendUpstreamCloseRequestは、UpstreamCloseRequestを送信します。
@@ -677,17 +694,17 @@ func (c *ClientConn) SendDownstreamCloseRequest(ctx context.Context, req *messag
 
 // SendDownstreamDataPointsAckは、DownstreamMetadataAckを送信します。
 func (c *ClientConn) SendDownstreamDataPointsAck(ctx context.Context, ack *message.DownstreamChunkAck) error {
-	return c.transport.Write(ack)
+	return c.writeUnlessDisconnected(c.transport, ack)
 }
 
 // SendDownstreamMetadataAckは、DownstreamMetadataAckを送信します。
 func (c *ClientConn) SendDownstreamMetadataAck(ctx context.Context, ack *message.DownstreamMetadataAck) error {
-	return c.transport.Write(ack)
+	return c.writeUnlessDisconnected(c.transport, ack)
 }
 
 // SendUpstreamCallは、UpstreamCallを送信します。
 func (c *ClientConn) SendUpstreamCall(ctx context.Context, call *message.UpstreamCall) error {
-	return c.transport.Write(call)
+	return c.writeUnlessDisconnected(c.transport, call)
 }
 
 // ReceiveUpstreamCallAckは、UpstreamCallAckを待ち受けます。
@@ -735,7 +752,7 @@ func (c *ClientConn) sendRequest(ctx context.Context, req message.Request) (mess
 	c.mu.Lock()
 	c.replyCh[req.GetRequestID()] = reply
 	c.mu.Unlock()
-	if err := c.transport.Write(req); err != nil {
+	if err := c.writeUnlessDisconnected(c.transport, req); err != nil {
 		return nil, err
 	}
 	select {
